@@ -345,11 +345,18 @@ def rule_progress(ctx, px, summaries):
         fb = FnBounds(fi, len_texts=("buffer_len", "len(self._buffer)"), cursors=("pos",), pointer_names={}, consts=consts)
         ctx.rep.cfg_nodes += len(fb.cfg.nodes)
         heads = [h for h in fb.cfg.nodes if h.kind == "loop" and isinstance(h.ast, ast.While)]
-        ctx.anchor(len(heads) >= 1, f"while-loop in {q}")
+        fors = [h for h in fb.cfg.nodes if h.kind == "loop" and isinstance(h.ast, ast.For)]
+        ctx.anchor(len(heads) + len(fors) >= 1, f"decoding loop in {q}")
         for h in heads:
             ok, why = loop_progress(fb, h)
             n += 1
             ctx.ob(R, fi, h, ok, f"`while {unparse(h.ast.test)[:60]}`: {why}", text="loop:" + unparse(h.ast.test)[:60])
+        for h in fors:
+            # a for-loop terminates when it iterates a finite collection or a range
+            it = h.ast.iter
+            okf = isinstance(it, (ast.Name, ast.Attribute, ast.List, ast.Tuple)) or (isinstance(it, ast.Call) and call_attr(it) in ("range", "enumerate", "zip", "reversed", "items", "values", "keys"))
+            n += 1
+            ctx.ob(R, fi, h, okf, f"`for ... in {unparse(it)[:50]}` iterates something that is not evidently finite", text="for:" + unparse(it)[:50])
     ctx.anchor(n >= 7, f"decoder loops examined: {n} < 7")
 
 
